@@ -1,9 +1,10 @@
 """C03 — power-of-two quantizers (DESIGN.md §4 C03; model lean/QKV/Model/Po2Quant.lean).
 
 Per configuration: a breakpoint-directed float32 tensor goes through the REAL quantizer (eager,
-legacy Keras) and through the Lean model.  Outside the log2 band the float32 layer of the model
-(`quantF`) must equal the real output bit-for-bit; inside the band the real output must be one of
-the (at most two) admissible values.  Independently the real outputs are judged against the
+legacy Keras) and through the Lean model.  "rnd" mode: outside the log2 band around sqrt(2)*2^k the
+float32 layer of the model (`quantF`) must equal the real output bit-for-bit; inside the band the
+real output must be one of the two admissible values.  "floor" mode (after fix 40deb9c: round, then
+step down iff 2**round > x) is deterministic everywhere and compared bit-for-bit.  Independently the real outputs are judged against the
 property clauses by exact predicates (po2-ness / exponent range / sign / admissible exponent
 evaluated in Lean, order comparisons on exact Fractions here).
 """
@@ -184,11 +185,12 @@ def run(run: core.Run, tier: str):
       "pre-images, each +-{0,1,2,8} ulp and +-700 ulp (just outside the band), 0, subnormals, FLT_MAX, straight-through cancellation edges, "
       "log-uniform random; both signs; q(q(x)) for every point.  non-trivial = every point except the "
       "random ones.  Comparison: bit-for-bit against the model's float32 layer when one exponent is "
-      "admissible, membership when the input is inside the 2^-15 log2 band.")
+      "admissible (always in floor mode), membership when a rnd-mode input is inside the 2^-15 log2 band.")
   run.assumptions += [
       "TF CPU kernels flush subnormal inputs/results to zero (modelled: daz / rnd32 flush); "
       "a negative subnormal input is read as +0",
-      "float32 log(x)/log(2) lands within relative 2^-15 (in x) of the exact breakpoint (band device); "
+      "float32 round(log(x)/log(2)) is an exponent the 2^-15 band (relative, in x, around sqrt(2)*2^k) admits; "
+      "floor mode's pow(2, round) > x comparison is exact; "
       "TF round/floor/pow(2, integer) are exact in the normal range (checked: pow on -126..127 each run)",
   ]
 
